@@ -2,7 +2,7 @@
    Statements only; proofs are in Chan/TeardownFacts.v, TeardownInv.v, TeardownAux.v, TeardownThm.v. *)
 From Coq Require Import List Bool Arith.
 Import ListNotations.
-From Lime Require Import Base.Res Chan.Teardown Chan.TeardownFacts Chan.TeardownInv Chan.TeardownAux Chan.TeardownThm Corr.C13.
+From Lime Require Import Base.Res Chan.Teardown Chan.TeardownFacts Chan.TeardownInv Chan.TeardownAux Chan.TeardownThm Chan.TeardownEnd Corr.C13.
 
 (* Model: both endpoints of an established session, both directions of the connection with any
    traffic in flight, stream capacity >= 0, the two receiver goroutines, consumers, the client's
@@ -52,6 +52,21 @@ Theorem C13_clean_end : forall inproc cap a b (sched : list tlabel) t,
   sapp s = SDone /\ e_open (sv s) = false.
 Proof. exact clean_end. Qed.
 Print Assumptions C13_clean_end.
+
+(* Put together, as one statement: once the server has ended a session (and the client has not closed its channel
+   on its own), however the receivers, the consumers and the two application goroutines are scheduled from there,
+   after at most [tmeasure] of their steps nothing moves any more, and that state is the clean end.  No schedule
+   can avoid it for ever, since every such step lowers the measure or changes nothing (C13_terminates). *)
+Theorem C13_every_session_end_completes : forall inproc cap a b (sched : list tlabel) t,
+  let s := trun inproc true (tinit cap a b) sched in
+  client_out s = false -> sent_term s = Some t ->
+  exists ls, Forall internal ls /\ List.length ls <= tmeasure s /\
+    let s' := trun inproc true s ls in
+    quiescent inproc s' /\
+    e_state (cl s') = STerm t /\ e_state (sv s') = STerm t /\ e_rcv (cl s') = false /\ e_rcv (sv s') = false /\
+    sapp s' = SDone /\ e_open (sv s') = false.
+Proof. exact every_session_end_completes. Qed.
+Print Assumptions C13_every_session_end_completes.
 
 (* The initiator's connection is closed by the terminating call (client FinishSession; server
    finish/fail), in every reachable state; and once the observing side has closed its channel
